@@ -907,7 +907,7 @@ def replay_known(ctx, finding):
 LEVEL_TEXT = ("Theorems in Lean over an arbitrary commutative ring (field / ordered field where division or order is needed), with the "
               "three angles as points of the unit circle: from_angle gives orthonormal rows and determinant 1, equals "
               "Rx(roll)*Ry(pitch)*Rz(yaw); rotating composes associatively; to_angle followed by from_angle reproduces a rotation "
-              "matrix exactly off the gimbal branch; the Gauss-Jordan inverse is a left inverse and equals the transpose on rotations; "
+              "matrix exactly off the gimbal branch; the Gauss-Jordan inverse is a left inverse whenever it returns, never raises on a rotation and equals the transpose there; within 2h of the matrix on the gimbal branch; "
               "the 7x7x3 operand dispatch table has the left operand's type, converts Angle operands with from_angle and is in place "
               "exactly for @= on a mutable left operand. The formulas are re-extracted from math.py on every run and proved equal to "
               "the model; the dispatch, _to_angle and inverse control flow are tied by a differential run within stated tolerances.")
